@@ -3,12 +3,12 @@ NOT_APPLICABLE = {}
 TB = "Trusted: Go toolchain packages go/parser, go/scanner, go/format, go/types, go/constant, strconv, reflect; pgregory.net/rapid v1.3.0."
 CHECKS = {
  "C20": {
-  "text": "Generated-history search: rapid draws append/clone histories (<=60 steps quick, <=200 thorough, appends of 0-9 items through eight builder methods so capacity is and is not exhausted); after every step every live statement is rendered and compared with a list model. No counter-example among the generated histories; absence is not established.",
-  "note": TB + " The model accepts both a live-view and a snapshot semantics of Clone, since the property allows either.",
+  "text": "Generated-history search: rapid draws append/clone histories (<=60 steps quick, <=200 thorough, appends of 0-9 items through twelve builder methods so capacity is and is not exhausted, clones also taken inside Do callbacks, statements added to statements); after every step every live statement is rendered and compared with a list model. No counter-example among the generated histories; absence is not established.",
+  "note": TB + " The model accepts a live-view or a snapshot semantics of Clone, since the property allows either, but one and the same for every clone of a history.",
   "technique": "stateful property-based testing (rapid) against a list model",
  },
  "C03": {
-  "text": "Generated search over import scenarios (constructor x hint history x prefix x body) with go/types as oracle: the rendered file is type-checked against fabricated packages whose declared names only match when jennifer's alias/no-alias decision is right; every marker symbol must resolve to the package it was built with, through one qualifier per path, with zero type errors. No counter-example among the generated scenarios; absence is not established.",
+  "text": "Generated search over import scenarios (constructor x hint history x prefix x canonical path x body; one in four with part of the settings applied after a first render) with go/types as oracle: the rendered file is type-checked against fabricated packages whose declared names only match when jennifer's alias/no-alias decision is right; every marker symbol must resolve to the package it was built with, through one qualifier per path, with zero type errors. No counter-example among the generated scenarios; absence is not established.",
   "note": TB + " Fabricated importer: one synthetic package per path; std names read from GOROOT/src package clauses.",
   "technique": "property-based testing (rapid) with a go/types resolution oracle over fabricated packages",
  },
@@ -28,17 +28,17 @@ CHECKS = {
   "technique": "property-based testing (rapid) with bare-vs-qualified predicates and go/types resolution",
  },
  "C01": {
-  "text": "Round-trip search: every .go file of the installed toolchain's src tree (thorough: both installed toolchains, ~14.5k files / ~220k declarations) plus grammar-generated programs is translated construct by construct into the documented DSL element, rendered, re-parsed and compared node-by-node with the source tree. No counter-example among them; absence for all Go programs is not established (bounded depth/arity, files needing type information are skipped and counted).",
-  "note": TB + " The translator is part of the check: a mismatch is only reported when the independent reference renderer reproduces the source from the same recipe.",
+  "text": "Round-trip search: every .go file of the installed toolchain's src tree (thorough: both installed toolchains, ~14.5k files / ~220k declarations) plus grammar-generated programs is translated construct by construct into the documented DSL element, rendered, re-parsed and compared node-by-node with the source tree. No counter-example among them; absence for all Go programs is not established (bounded depth/arity, files needing type information are skipped and counted). Each translated file is also round-tripped with the alternative elements (Tag(map) for struct tags, Values(Dict) for keyed literals); 24 shapes of very deep / very wide programs (sizes to 2000).",
+  "note": TB + " The translator is part of the check: on the unchanged tree no file mismatches; a translator gap that only a new corpus would expose would be reported as a violation (DESIGN 13).",
   "technique": "round-trip property over a real-program corpus and generated programs (go/ast -> DSL -> bytes -> go/ast equality)",
  },
  "C13": {
-  "text": "Exhaustive enumeration of every list construct x arity 0..8 (thorough 0..12) x every subset of null positions x Empty() position, rapid-generated larger lists, and the null policy applied to all list constructs of real programs (metamorphic: output with injected null-like items must equal output without, byte for byte; remaining items exactly, in order).",
+  "text": "Exhaustive enumeration of every list construct x arity 0..8 (thorough 0..12) x every subset of null positions x Empty() position, rapid-generated larger lists (arities to 1000, also built through the *Group methods), and the null policy applied to all list constructs of real programs (metamorphic: output with injected null-like items must equal output without, byte for byte; remaining items exactly, in order).",
   "note": TB + " Null-like items are inserted only as list items, never into call chains, never beside a Dict.",
   "technique": "metamorphic property (null injection) by exhaustive enumeration, rapid generation and corpus programs",
  },
  "C18": {
-  "text": "Exhaustive: every package directory of GOROOT/src rendered alone (with and without prefix) and checked with the go/types resolution oracle against the package clause on disk; generated colliding sets; one gennames run compared row by row with the package clauses.",
+  "text": "Exhaustive: every package directory of GOROOT/src rendered alone (with and without prefix) and checked with the go/types resolution oracle against the package clause on disk, once more under an unrelated File setting (preamble, NoFormat, canonical path, Anon, comments); generated colliding sets; one gennames run compared row by row with the package clauses.",
   "note": TB + " Real names come from go/parser over GOROOT/src, independent of `go list`.",
   "technique": "exhaustive enumeration of std packages + property-based testing (rapid) with a go/types oracle; differential check of gennames output against package clauses",
  },
@@ -48,7 +48,7 @@ CHECKS = {
   "technique": "exhaustive cross-product enumeration + property-based testing (rapid) over preamble texts with go/parser / go/types structure oracles",
  },
  "C02": {
-  "text": "Generated search over arbitrary DSL trees (every exported construct, plausible and arbitrary arguments; ~98% invalid Go), plausible valid programs and real programs with one structured damage, under random File settings and form policies: each is built formatted and NoFormat; nil from Render implies the bytes parse and equal gofmt(raw twin); an error implies nothing was written; every body statement and ...Func group is also rendered as a fragment (nil implies the bytes parse as file, declarations or statements); no panic anywhere. Thorough adds coverage-guided fuzzing of the same property (rapid.MakeFuzz).",
+  "text": "Generated search over arbitrary DSL trees (every exported construct, plausible and arbitrary arguments; ~98% invalid Go), plausible valid programs and real programs with one structured damage, under random File settings and form policies: each is built formatted and NoFormat; nil from Render implies the bytes parse and equal gofmt(raw twin); an error implies nothing was written; every body statement and ...Func group is also rendered as a fragment (nil implies the bytes parse as file, declarations or statements); no panic anywhere; programs holding an element jennifer is documented to reject by panicking must never be reported as a success with bytes that are not Go. Thorough adds coverage-guided fuzzing of the same property (rapid.MakeFuzz).",
   "note": TB + " Documented preconditions are respected by construction (supported Lit types, Dict alone in Values).",
   "technique": "differential property (formatted vs gofmt of NoFormat twin) over rapid-generated trees, damaged programs and native fuzzing",
  },
@@ -58,48 +58,48 @@ CHECKS = {
   "technique": "metamorphic property (rebuild-and-compare, in-process and cross-process) over rapid-generated recipes",
  },
  "C08": {
-  "text": "Stateful generated search: histories of add / File.Render / Statement.RenderWithFile / Group.RenderWithFile / ImportName / ImportAlias / Anon / PackagePrefix over one File and a pool of statements (case blocks with nil, null, empty and captured bodies, Dicts with qualified keys); invariants after every step: back-to-back renders equal, unchanged objects render as before, qualifier per path fixed at first sighting, the File's import block declares every sighted path under the modelled name and resolves through go/types.",
+  "text": "Stateful generated search: histories of add / File.Render / Statement.RenderWithFile / Group.RenderWithFile / ImportName / ImportAlias / Anon / PackagePrefix over one File and a pool of statements (case blocks with nil, null, empty and captured bodies, Dicts with qualified keys); invariants after every step: back-to-back renders equal, unchanged objects render as before, qualifier per path fixed at first sighting, the File's import block declares every sighted path under the modelled name and resolves through go/types; fragments that cannot be formatted fail the same way every time and leave nothing behind.",
   "note": TB + " Anon on an already sighted path is excluded, as in the property.",
   "technique": "stateful property-based testing (rapid) with history invariants and a first-sighting name model",
  },
  "C09": {
-  "text": "Generated job sets (4..16 File recipes with competing import names): concurrent build+render on one goroutine per job behind a barrier (20 / 200 rounds, cold start: paths unique to the case) under the race detector, then solo references and three sequential permutations in two interleavings, all compared byte-for-byte with the solo output; plus Files sharing the same Code values rendered one after another vs unshared twins. Goroutine interleavings are sampled by the scheduler, not enumerated.",
+  "text": "Generated job sets (4..16 File recipes with competing import names): concurrent build+render on one goroutine per job behind a barrier (20 / 200 rounds, cold start: paths unique to the case) under the race detector, then solo references and three sequential permutations in two interleavings, all compared byte-for-byte with the solo output; every other concurrent round goes through File.Save into one directory; plus Files sharing the same Code values rendered one after another vs unshared twins; plus a differential against a re-executed fresh process for Files of confusable literals (the in-process reference would share process-wide state with the render under test). Goroutine interleavings are sampled by the scheduler, not enumerated.",
   "note": TB + " Go race detector (-race build of /repo and the harness).",
-  "technique": "differential property (solo vs sequential vs concurrent schedules) over rapid-generated job sets under the Go race detector",
+  "technique": "differential property (solo vs sequential vs concurrent schedules vs fresh process) over rapid-generated job sets under the Go race detector",
  },
  "C10": {
   "level": "fault_enumeration",
-  "text": "For every generated tree (valid programs and invalid random trees) the complete fault matrix is executed: 5 writer-based entry points x 6 writer behaviours, and File.Save x 7 filesystem situations on a real filesystem; assertions: a failing render performs zero Write calls and leaves an existing target's bytes and mtime untouched, injected writer/FS errors come back non-nil, success delivers exactly the reference bytes. Per-cell counts are in the evidence.",
+  "text": "For every generated tree (valid programs and invalid random trees) the complete fault matrix is executed: 5 writer-based entry points x 6 writer behaviours, and File.Save x 7 filesystem situations on a real filesystem; assertions: a failing render performs zero Write calls and leaves an existing target's bytes and mtime untouched, injected writer/FS errors come back non-nil, success delivers exactly the reference bytes (also into a writer that renders other code inside Write, also for NoFormat Files). Per-cell counts are in the evidence.",
   "note": TB + " Runs as root: permission faults are not used; short writes without error are not injected (they violate io.Writer).",
   "technique": "fault enumeration (writer and filesystem fault matrix) x rapid-generated trees",
  },
  "C11": {
-  "text": "Exhaustive over bool, int8, uint8 (thorough: int16, uint16) and float64 decades 1e-330..1e310; rapid boundary/random values for all 16 supported numeric types; each rendered literal is evaluated with go/types.Eval and compared with the Go value and type (LitFunc: same bytes as Lit, callback ran once).",
+  "text": "Exhaustive over bool, int8, uint8 (thorough: int16, uint16) and float64 decades 1e-330..1e310; rapid boundary/random values for all 16 supported numeric types; each rendered literal is evaluated with go/types.Eval and compared with the Go value and type (LitFunc: same bytes as Lit, callback ran once); the literal chained into 17 statement contexts must leave the statement as it is with an identifier in its place.",
   "note": TB + " Finite values only.",
   "technique": "exhaustive small domains + property-based testing (rapid) with go/types.Eval / go/constant as value-and-type oracle",
  },
  "C12": {
-  "text": "Strings: rapid byte strings biased to hostile characters (thorough 1.6M + native fuzzing); runes: all code points < 0x300 plus strided sample (thorough: all 1,112,064 valid code points); bytes: all 256. Oracle: go/scanner token shape of `a := <lit>; b`, strconv.Unquote / go/types.Eval value and type.",
+  "text": "Strings: rapid byte strings biased to hostile characters (thorough 1.6M + native fuzzing); runes: all code points < 0x300 plus strided sample (thorough: all 1,112,064 valid code points); bytes: all 256. Oracle: go/scanner token shape of `a := <lit>; b`, strconv.Unquote / go/types.Eval value and type; exact string lengths 0..130 and 2^k±1; string, rune and byte literals of the same characters mixed in one File must each render as they do alone.",
   "note": TB,
   "technique": "exhaustive rune/byte enumeration + property-based testing (rapid) + native fuzzing with scanner-shape and round-trip oracles",
  },
  "C14": {
-  "text": "API enumerated from /repo/jen sources at check time (triples and ...Func companions must exist with identical parameters); for every construct >= 50 generated argument lists compared across function form, method form, Add, *Group method (append + return identity) and ...Func variants, with GoString/Render/RenderWithFile agreement over three repetitions and callback counters (exactly once, never late); form policy applied at every call of real programs vs the all-method build.",
+  "text": "API enumerated from /repo/jen sources at check time (triples and ...Func companions must exist with identical parameters); for every construct >= 50 generated argument lists compared across function form, method form, Add, *Group method (append + return identity) and ...Func variants, with GoString/Render/RenderWithFile agreement over three repetitions and callback counters (exactly once, never late); seven continuations chained onto every form; form policy applied at every call of real programs vs the all-method build.",
   "note": TB + " Reflection over the compiled API; package functions come from a generated table checked against the sources.",
   "technique": "API-enumerating property-based testing (rapid): cross-form byte equality, callback counting, metamorphic form policy on corpus programs",
  },
  "C15": {
-  "text": "Comment policy applied to every Block/Defs/Struct/Interface/case body/File of real programs and of generated programs, with generated texts: go/scanner code-token sequence with comments must equal the one without (NoFormat and formatted), and the NoFormat output's comments must be exactly the given texts in line or block style; generated file-level settings: package doc iff package comments, headers apart from it by a blank line, import annotation unquotes to the canonical path.",
+  "text": "Comment policy applied to every Block/Defs/Struct/Interface/case body/File of real programs and of generated programs, with generated texts: go/scanner code-token sequence with comments must equal the one without (NoFormat and formatted), and the NoFormat output's comments must be exactly the given texts in line or block style; generated file-level settings: package doc iff package comments, headers apart from it by a blank line, import annotation unquotes to the canonical path; settings made after a first render must give what a File configured that way from the start gives.",
   "note": TB + " Text compared on NoFormat output only (gofmt rewrites doc comments).",
   "technique": "metamorphic property (comment injection) over corpus and rapid-generated programs; structural oracle via go/parser comment groups",
  },
  "C16": {
-  "text": "Generated Dicts of 0..20 pairs with colliding / identical key texts, null sides by construction, qualified keys and nested values: the composite literal parsed from raw and formatted output must hold each live pair exactly once with its own value, raw key texts non-decreasing, same sequence after gofmt, inline for one pair and one per line for several, {} when all null.",
+  "text": "Generated Dicts of 0..20 (one in 25: 31..257) pairs with colliding / identical key texts, null sides by construction, qualified keys and nested values: the composite literal parsed from raw and formatted output must hold each live pair exactly once with its own value, raw key texts non-decreasing, same sequence after gofmt, inline for one pair and one per line for several, {} when all null; a placeholder filled or a key continued in place between renders of one File gives what a Dict built that way gives.",
   "note": TB + " Order is judged on raw key text, the documented sort key.",
   "technique": "property-based testing (rapid) with a parsed-literal multiset/order/layout oracle",
  },
  "C17": {
-  "text": "Generated tag maps (0..8 conventional keys to hostile byte strings; thorough 1.6M + native fuzzing): exactly one STRING token, strconv.Unquote, reflect.StructTag.Lookup returns every value, keys sorted, empty map renders nothing; raw and formatted output agree.",
+  "text": "Generated tag maps (0..8 conventional keys to hostile byte strings; thorough 1.6M + native fuzzing): exactly one STRING token, strconv.Unquote, reflect.StructTag.Lookup returns every value, keys sorted, empty map renders nothing; raw and formatted output agree; 4..16 maps rendered concurrently on goroutines of their own round-trip as they do alone.",
   "note": TB,
   "technique": "round-trip property (rapid + native fuzzing) through strconv.Unquote and reflect.StructTag",
  },
